@@ -328,7 +328,7 @@ def got_bonds(arr):
 # --------------------------------------------------------------------------
 # writing / reading routes
 # --------------------------------------------------------------------------
-ROUTE_TOL = {"bcif_c6": 1e-6, "bcif_c3": 1e-3}
+ROUTE_TOL = {"bcif_c6": 1e-6, "bcif_c3": 1e-3, "bcif_c9": 1e-9}
 
 
 def routes_for(case):
@@ -500,7 +500,10 @@ def _check_close(o, got, want, tol, clause, what):
     if got.shape != want.shape:
         o.fail(clause, f"{what}: shape {got.shape} != {want.shape}")
         return False
-    lim = tol * 1.01 * np.abs(want) + 8 * np.finfo(np.float32).eps * np.abs(want) + 1e-44
+    # float32 slack: decoding divides in single precision (a few roundings); a tolerance far below
+    # single precision asks for practically lossless floats, so the slack must not swallow 1e-6
+    slack = 8 if tol >= 1e-6 else 2
+    lim = tol * 1.01 * np.abs(want) + slack * np.finfo(np.float32).eps * np.abs(want) + 1e-44
     bad = np.abs(got - want) > lim
     return o.check(not bad.any(), clause, lambda: f"{what}: got {got[bad][:5].tolist()} want {want[bad][:5].tolist()} (rel tol {tol})")
 
@@ -861,7 +864,7 @@ def st_structure(tier, models=None, small=False, allow_bonds=True):
             # route struct_conn matching through the dictionary implementation used for large files
             "dict_matching": draw(st.integers(0, 3)) == 0,
             # float_tolerance of the compress()ed BinaryCIF route
-            "compress_tol": draw(st.sampled_from([1e-6, 1e-3])),
+            "compress_tol": draw(st.sampled_from([1e-6, 1e-3, 1e-9])),
         }
         if case["coord_mode"] != "pdb":
             # explicit awkward values (denormal, 1e30, -0.0 ...) that shrink as values
